@@ -151,3 +151,17 @@ Proof. destruct n' as [ci e s|[l|l]]; cbn [top cct map]; try apply ser_single. r
 Theorem round_trip_same_impedance (reg : registry) (leaf : nat -> ez C) pf c n' :
   pconn reg pf c = Some n' -> cspec (cct (top n')) leaf = cspec (cct c) leaf.
 Proof. intro H. rewrite top_value. apply (proj2 (same_value reg leaf pf) c n' H). Qed.
+
+(* the implicit outer series: what the parser assembles from the items written without the outer brackets has the impedance of the
+   series of those items *)
+Theorem implicit_series_same_impedance (reg : registry) (leaf : nat -> ez C) pf l l' :
+  List.Forall2 (fun x x' => pnode reg pf x = Some x') l l' ->
+  cspec (cct (match l' with [x'] => top x' | _ => Ser l' end)) leaf = cspec (CSer (map ct l)) leaf.
+Proof.
+  intro HF.
+  assert (Hext : cspec (CSer (map ct l')) leaf = cspec (CSer (map ct l)) leaf).
+  { apply ser_ext. clear -HF. induction HF as [|x x' l0 l0' Hx _ IH]; simpl; constructor; auto.
+    apply (proj1 (same_value reg leaf pf) x x' Hx). }
+  destruct l' as [|a [|b r]]; try exact Hext.
+  rewrite top_value. rewrite <- Hext. cbn [map]. symmetry. apply ser_single.
+Qed.
